@@ -18,6 +18,7 @@ import (
 // the shipped primitives package; they are checked here instead of being assumed.
 func runPrimitives(a *Analyzer, r *Results) {
 	runProtoTables(a, r)
+	runBlockAccessors(a, r)
 	pkg := a.P.ByPath[modPath+"/spec/types/go/primitives"]
 	if pkg == nil {
 		r.Undecided = append(r.Undecided, "primitives package not loaded (PRIM anchor)")
@@ -328,5 +329,44 @@ func runProtoTables(a *Analyzer, r *Results) {
 	}
 	if nTypes < 8 {
 		r.Undecided = append(r.Undecided, fmtf("only %d wire message writers found (11 confirmed by reading)", nTypes))
+	}
+}
+
+// H0.height: the two helpers through which every rule reads a block's height / reference time are what their names say:
+// 0 for the genesis (nil) block, the block's own Height() / ReferenceTime() otherwise.
+func runBlockAccessors(a *Analyzer, r *Results) {
+	for _, h := range []struct{ id, method string }{
+		{"services/blockheight.GetBlockHeight", "interfaces.Height"},
+		{"services/blockreferencetime.GetBlockReferenceTime", "interfaces.ReferenceTime"},
+	} {
+		fn := a.P.FuncOpt(h.id)
+		if fn == nil {
+			r.Undecided = append(r.Undecided, "unresolved anchor: "+h.id)
+			continue
+		}
+		pt := a.PathTerm(fn)
+		ok := false
+		why := "not a pure loop-free function of the block"
+		if pt != nil {
+			why = "is " + PP(pt)
+			p0 := T("param", "0")
+			want := Call(h.method, p0)
+			if pt.Op == "ite" && len(pt.Args) == 3 {
+				c, x, y := pt.Args[0], pt.Args[1], pt.Args[2]
+				neg := false
+				for c.Op == "un" && c.Name == "!" && len(c.Args) == 1 {
+					c, neg = c.Args[0], !neg
+				}
+				isNilTest := c.Op == "bin" && c.Name == "==" && len(c.Args) == 2 &&
+					((c.Args[0].Key() == p0.Key() && (c.Args[1].Key() == tNil.Key() || c.Args[1].Op == "global")) || (c.Args[1].Key() == p0.Key() && (c.Args[0].Key() == tNil.Key() || c.Args[0].Op == "global")))
+				if neg {
+					x, y = y, x
+				}
+				if isNilTest && x.Key() == Const("0").Key() && y.Key() == want.Key() {
+					ok = true
+				}
+			}
+		}
+		r.Check("H0.height", props("C13", "C14", "C01", "C05", "C15", "C18"), "GetBlockHeight / GetBlockReferenceTime return 0 for the genesis (nil) block and the block's own value otherwise: the height a round is started for, and the committee request, are derived from them", shortName(fn), a.P.Pos(fn.Pos()), ok, why, "D")
 	}
 }
